@@ -771,6 +771,19 @@ func (realComp) Gen(r *rand.Rand, tier string, n int) []*wire.Case {
 			s.elevel, s.enemies = lv, []string{"dummy", "dummy"}
 			cases = append(cases, &wire.Case{ID: fmt.Sprintf("d-enemy-level-%d", lv), Ops: []*wire.Rec{s.rec("run")}})
 		}
+		// every registered character at the top of every level range (abilities clamp at 9 / 15 / 15 / 15), starting with full energy,
+		// its ultimate used whenever it can be and basic attacks otherwise; then the same with skills
+		for _, c := range chars {
+			for k, act := range []string{"attack", "skill"} {
+				s := realSpecGen(r, []string{c}, lcs, relics)
+				s.chars, s.eidols, s.levels, s.abil, s.energy = []string{c}, []int{6}, []int{80}, 15, 200
+				s.lcs, s.relics = s.lcs[:1], s.relics[:1]
+				s.quirk, s.cycles, s.ehp, s.elevel = 0, 4, 100000, 50
+				s.enemies = []string{"dummy", "dummy"}
+				s.script = fmt.Sprintf("set_default_action(%s, attack(First));\nregister_skill_cb(%s, fn () { return %s(First); });\nregister_ult_cb(%s, fn () { return ult(First); });\n", c, c, act, c)
+				cases = append(cases, &wire.Case{ID: fmt.Sprintf("d-char-%s-maxed-%d", c, k), Ops: []*wire.Rec{s.rec("run")}})
+			}
+		}
 		// every registered character once, alone, with its own script
 		for _, c := range chars {
 			s := realSpecGen(r, []string{c}, lcs, relics)
